@@ -155,7 +155,17 @@ func VC18_LoadOptionStrings() {
 	f0, f1 := vUnit("f0"), vUnit("f1")
 	desc8 := vCat(vUTF8(d0), vUTF8(d1))
 	path8 := vCat(vUTF8(f0), vUTF8(f1))
-	nodes := vCat(vNode(4, 4, vCat(vLE16(f0), vLE16(f1), []byte{0, 0})), vNode(0x7f, 0xff, nil))
+	// the path name is optionally long (two symbolic units after 130 fixed ones): the node then
+	// needs both bytes of its 16-bit length
+	var filler, filler8 []byte
+	if vsym.Bool("long.path") {
+		for i := 0; i < 130; i++ {
+			filler = append(filler, 'a'+byte(i%26), 0)
+			filler8 = append(filler8, 'a'+byte(i%26))
+		}
+		path8 = vCat(filler8, path8)
+	}
+	nodes := vCat(vNode(4, 4, vCat(filler, vLE16(f0), vLE16(f1), []byte{0, 0})), vNode(0x7f, 0xff, nil))
 	in := vCat(vLE32(attrs), vLE16(uint16(len(nodes))), vLE16(d0), vLE16(d1), []byte{0, 0}, nodes)
 	var lo EFILoadOption
 	err := lo.Unmarshal(bytes.NewBuffer(in))
